@@ -931,4 +931,420 @@ theorem inv_run {s : St} (h : Inv s) (hw : WaitInv s) (ls : List Label) :
     have := inv_step h hw l
     exact ih this.1 this.2
 
+/-! ## connections: every open connection is pooled or in use; a closed connector queues nobody -/
+
+def OInv (s : St) : Prop := ∀ c, connOpen s c = true → c ∈ s.idle ∨ Slot.conn c ∈ s.acquired
+def QInv (s : St) : Prop := s.closed = true → s.waitq = []
+
+theorem wake_conns (s : St) (t : Tid) : (wake s t).conns = s.conns := by
+  unfold wake; split <;> rfl
+theorem releaseWaiterKeys_conns (ks : List Key) : ∀ s : St, (releaseWaiterKeys s ks).conns = s.conns := by
+  induction ks with
+  | nil => intro s; rfl
+  | cons k ks ih =>
+    intro s; unfold releaseWaiterKeys; split
+    · dsimp only; split
+      · rw [wake_conns]
+      · rw [ih]
+    · exact ih s
+theorem releaseWaiter_conns (s : St) : (releaseWaiter s).conns = s.conns := releaseWaiterKeys_conns _ s
+
+theorem connOpen_congr {s s' : St} (h : s'.conns = s.conns) (c : Cid) : connOpen s' c = connOpen s c := by
+  unfold connOpen; rw [h]
+
+theorem OInv.of_eq {s s' : St} (h : OInv s) (e1 : s'.conns = s.conns) (e2 : s'.idle = s.idle)
+    (e3 : s'.acquired = s.acquired) : OInv s' := by
+  intro c hc; rw [connOpen_congr e1] at hc; rw [e2, e3]; exact h c hc
+
+theorem OInv.core {s s' : St} (h : OInv s) (c : SameCore s s') (e1 : s'.conns = s.conns) : OInv s' :=
+  h.of_eq e1 c.idle c.acquired
+theorem QInv.core {s s' : St} (h : QInv s) (c : SameCore s s') (hw : ∀ u ∈ s'.waitq, u ∈ s.waitq) : QInv s' := by
+  intro hc; rw [c.closed] at hc
+  have := h hc
+  apply List.eq_nil_iff_forall_not_mem.mpr
+  intro u hu; have := hw u hu; simp_all
+
+theorem connOpen_closeConn (s : St) (c d : Cid) :
+    connOpen (closeConn s c) d = (if d = c then false else connOpen s d) := by
+  unfold connOpen closeConn
+  simp only [List.getElem?_modify]
+  by_cases e : c = d
+  · subst e; cases h : s.conns[c]? <;> simp [h]
+  · have : ¬ d = c := fun e' => e e'.symm
+    simp [e, this]
+
+theorem popIdle_spec (s : St) (k : Key) (l : List Cid) :
+    (∀ c ∈ l, c ∈ (popIdle s k l).2 ∨ (popIdle s k l).1 = some c ∨ connOpen s c = false)
+    ∧ (∀ c ∈ (popIdle s k l).2, c ∈ l) := by
+  induction l with
+  | nil => simp [popIdle]
+  | cons a t ih =>
+    unfold popIdle
+    split
+    · split
+      · next ho =>
+        refine ⟨?_, fun c hc => List.mem_cons_of_mem _ hc⟩
+        intro c hc
+        rcases List.mem_cons.mp hc with e | e
+        · subst e; exact Or.inr (Or.inl rfl)
+        · exact Or.inl e
+      · next ho =>
+        refine ⟨?_, fun c hc => List.mem_cons_of_mem _ (ih.2 c hc)⟩
+        intro c hc
+        rcases List.mem_cons.mp hc with e | e
+        · subst e; right; right; simpa using ho
+        · exact ih.1 c e
+    · refine ⟨?_, ?_⟩
+      · intro c hc
+        rcases List.mem_cons.mp hc with e | e
+        · subst e; left; simp
+        · rcases ih.1 c e with h1 | h1 | h1
+          · left; exact List.mem_cons_of_mem _ h1
+          · right; left; exact h1
+          · right; right; exact h1
+      · intro c hc
+        rcases List.mem_cons.mp hc with e | e
+        · subst e; simp
+        · exact List.mem_cons_of_mem _ (ih.2 c e)
+
+theorem oinv_tryGet {s : St} {t : Tid} {x : Task} (h : OInv s) (hq : QInv s) :
+    OInv (tryGet s t x).1 ∧ QInv (tryGet s t x).1 := by
+  have sp := popIdle_spec s x.key s.idle
+  unfold tryGet; dsimp only; split
+  · next hn =>
+    refine ⟨?_, hq⟩
+    intro c hc
+    rcases h c hc with h1 | h1
+    · rcases sp.1 c h1 with h2 | h2 | h2
+      · exact Or.inl h2
+      · rw [hn] at h2; cases h2
+      · have : connOpen s c = true := hc
+        rw [h2] at this; cases this
+    · exact Or.inr h1
+  · next c0 hn =>
+    refine ⟨?_, hq⟩
+    intro c hc
+    have hc' : connOpen s c = true := hc
+    show c ∈ (popIdle s x.key s.idle).2 ∨ Slot.conn c ∈ sinsert (Slot.conn c0) s.acquired
+    rcases h c hc' with h1 | h1
+    · rcases sp.1 c h1 with h2 | h2 | h2
+      · exact Or.inl h2
+      · rw [hn] at h2; cases h2; exact Or.inr (mem_sinsert.mpr (Or.inl rfl))
+      · rw [h2] at hc'; cases hc'
+    · exact Or.inr (mem_sinsert.mpr (Or.inr h1))
+
+theorem oinv_reserve {s : St} {t : Tid} {x : Task} (h : OInv s) (hq : QInv s) :
+    OInv (reserve Fixes.all s t x) ∧ QInv (reserve Fixes.all s t x) := by
+  unfold reserve; split
+  · exact ⟨h.of_eq rfl rfl rfl, hq⟩
+  · refine ⟨?_, hq⟩
+    intro c hc
+    rcases h c hc with h1 | h1
+    · exact Or.inl h1
+    · exact Or.inr (mem_sinsert.mpr (Or.inr h1))
+
+theorem hasCap_closed {s : St} (h : Inv s) (hc : s.closed = true) (k : Key) : hasCap s k = true := by
+  obtain ⟨e1, e2, _⟩ := h.closed_empty hc
+  unfold hasCap hostCount
+  simp only [e1, e2, List.length_nil, List.countP_nil, Bool.and_eq_true, Bool.or_eq_true, decide_eq_true_eq]
+  omega
+
+theorem oinv_park {s : St} {t : Tid} {x : Task} (h : OInv s) (hc : s.closed = false) (b : Bool) :
+    OInv (park s t x b) ∧ QInv (park s t x b) :=
+  ⟨h.of_eq rfl rfl rfl, fun hc' => by rw [show (park s t x b).closed = s.closed from rfl, hc] at hc'; cases hc'⟩
+
+theorem oinv_enter {s : St} {t : Tid} {x : Task} (hi : Inv s) (h : OInv s) (hq : QInv s) (first : Bool) :
+    OInv (enter Fixes.all s t x first) ∧ QInv (enter Fixes.all s t x first) := by
+  cases hcap : hasCap s x.key
+  · have hcl : s.closed = false := by
+      cases e : s.closed
+      · rfl
+      · rw [hasCap_closed hi e] at hcap; cases hcap
+    cases first <;> simp [enter, Fixes.all, hcap]
+    · have c := releaseWaiter_core s
+      exact oinv_park (h.core c (releaseWaiter_conns s)) (by rw [c.closed]; exact hcl) true
+    · exact oinv_park h hcl false
+  · cases first <;> simp [enter, Fixes.all, hcap]
+    · split
+      · exact oinv_tryGet h hq
+      · have := oinv_tryGet (t := t) (x := x) h hq; exact oinv_reserve this.1 this.2
+    · split
+      · exact oinv_tryGet h hq
+      · next hf =>
+        have hf' : (tryGet s t x).snd = false := by simpa using hf
+        have : hasCap (tryGet s t x).fst x.key = true := by rw [tryGet_false hf']; exact hcap
+        simp only [this, if_true]
+        have := oinv_tryGet (t := t) (x := x) h hq; exact oinv_reserve this.1 this.2
+
+theorem oinv_releaseAcquired {s : St} {k : Key} {sl : Slot} (h : OInv s) (hq : QInv s)
+    (hsl : ∀ c, sl = .conn c → connOpen s c = true → c ∈ s.idle) :
+    OInv (releaseAcquired s k sl) ∧ QInv (releaseAcquired s k sl) := by
+  rw [releaseAcquired_eq]; split
+  · exact ⟨h, hq⟩
+  · have c := releaseWaiter_core (dropSlot s k sl)
+    have o1 : OInv (dropSlot s k sl) := by
+      intro c hc
+      rcases h c hc with h1 | h1
+      · exact Or.inl h1
+      · by_cases e : sl = .conn c
+        · exact Or.inl (hsl c e hc)
+        · exact Or.inr (mem_sremove.mpr ⟨h1, fun e' => e e'.symm⟩)
+    have q1 : QInv (dropSlot s k sl) := hq
+    exact ⟨o1.core c (releaseWaiter_conns _), q1.core c (releaseWaiter_waitq _)⟩
+
+theorem releaseAcquired_fields (s : St) (k : Key) (sl : Slot) :
+    (releaseAcquired s k sl).conns = s.conns ∧ (releaseAcquired s k sl).idle = s.idle
+    ∧ (releaseAcquired s k sl).closed = s.closed
+    ∧ (∀ x ∈ s.acquired, x ≠ sl → x ∈ (releaseAcquired s k sl).acquired)
+    ∧ (∀ u ∈ (releaseAcquired s k sl).waitq, u ∈ s.waitq) := by
+  rw [releaseAcquired_eq]; split
+  · exact ⟨rfl, rfl, rfl, fun x hx _ => hx, fun u hu => hu⟩
+  · have c := releaseWaiter_core (dropSlot s k sl)
+    refine ⟨releaseWaiter_conns _, c.idle, c.closed, ?_, releaseWaiter_waitq _⟩
+    intro x hx hne; rw [c.acquired]; exact mem_sremove.mpr ⟨hx, hne⟩
+
+theorem oinv_setTask {s : St} (t : Tid) (y : Task) (h : OInv s) (hq : QInv s) :
+    OInv (setTask s t y) ∧ QInv (setTask s t y) := ⟨h.of_eq rfl rfl rfl, hq⟩
+
+theorem oinv_resume {s : St} {t : Tid} {x : Task} (hi : Inv s) (h : OInv s) (hq : QInv s) :
+    OInv (resume Fixes.all s t x) ∧ QInv (resume Fixes.all s t x) := by
+  unfold resume
+  split
+  · split
+    · exact oinv_setTask _ _ h hq
+    · exact oinv_enter hi h hq true
+  · split
+    · exact ⟨h, hq⟩
+    · have c := unpark_core s t x.key
+      have i1 := hi.core c
+      have o1 : OInv (unpark s t x.key) := h.of_eq rfl rfl rfl
+      have q1 : QInv (unpark s t x.key) := hq.core c (by intro u hu; rw [unpark_waitq] at hu; exact (mem_sremove.mp hu).1)
+      dsimp only
+      split
+      · have := oinv_setTask t { x with pc := .failed (failKind x) } o1 q1
+        split
+        · have c2 := releaseWaiter_core (setTask (unpark s t x.key) t { x with pc := .failed (failKind x) })
+          exact ⟨this.1.core c2 (releaseWaiter_conns _), this.2.core c2 (releaseWaiter_waitq _)⟩
+        · exact this
+      · exact oinv_enter i1 o1 q1 false
+  · next res hpc =>
+    split
+    · have := oinv_setTask t { x with pc := .failed (failKind x) } h hq
+      exact oinv_releaseAcquired this.1 this.2 (fun c e => by cases e)
+    · split
+      · exact ⟨h, hq⟩
+      · have := oinv_setTask t { x with pc := .failed .oserr } h hq
+        exact oinv_releaseAcquired this.1 this.2 (fun c e => by cases e)
+      · dsimp only
+        split
+        · refine ⟨?_, hq⟩
+          intro c hc
+          have hc' : connOpen s c = true := by
+            unfold connOpen at hc ⊢
+            simp only [setTask] at hc
+            by_cases e : c < s.conns.length
+            · rw [List.getElem?_append_left e] at hc; exact hc
+            · have e2 : s.conns.length ≤ c := Nat.le_of_not_lt e
+              rw [List.getElem?_append_right e2] at hc
+              cases hh : c - s.conns.length <;> simp [hh] at hc
+          exact h c hc'
+        · refine ⟨?_, hq⟩
+          intro c hc
+          show c ∈ s.idle ∨ Slot.conn c ∈ sinsert (Slot.conn s.conns.length) (sremove (Slot.ph t) s.acquired)
+          by_cases e : c < s.conns.length
+          · have hc' : connOpen s c = true := by
+              unfold connOpen at hc ⊢
+              simp only [setTask] at hc
+              rw [List.getElem?_append_left e] at hc; exact hc
+            rcases h c hc' with h1 | h1
+            · exact Or.inl h1
+            · exact Or.inr (mem_sinsert.mpr (Or.inr (mem_sremove.mpr ⟨h1, by intro e'; cases e'⟩)))
+          · have e2 : s.conns.length ≤ c := Nat.le_of_not_lt e
+            by_cases e3 : c = s.conns.length
+            · subst e3; exact Or.inr (mem_sinsert.mpr (Or.inl rfl))
+            · exfalso
+              unfold connOpen at hc
+              simp only [setTask] at hc
+              rw [List.getElem?_append_right e2] at hc
+              have : c - s.conns.length ≠ 0 := by
+                intro h0; exact e3 (Nat.le_antisymm (Nat.le_of_sub_eq_zero h0) e2)
+              cases hh : c - s.conns.length
+              · exact this hh
+              · simp [hh] at hc
+  · exact ⟨h, hq⟩
+
+theorem oinv_cancelTask {s : St} {t : Tid} {x : Task} (h : OInv s) (hq : QInv s) (b : Bool) :
+    OInv (cancelTask s t x b) ∧ QInv (cancelTask s t x b) := by
+  cases b <;> unfold cancelTask <;> simp only [Bool.false_eq_true, if_false, if_true, Bool.false_and, Bool.true_and]
+  all_goals repeat' split
+  all_goals first
+    | exact ⟨h, hq⟩
+    | exact ⟨h.of_eq rfl rfl rfl, hq⟩
+
+theorem foldl_closeConn_open (l : List Cid) (s : St) (c : Cid) :
+    connOpen (l.foldl closeConn s) c = true → connOpen s c = true ∧ c ∉ l := by
+  induction l generalizing s with
+  | nil => intro h; exact ⟨h, by simp⟩
+  | cons a t ih =>
+    intro h
+    simp only [List.foldl_cons] at h
+    obtain ⟨h1, h2⟩ := ih _ h
+    rw [connOpen_closeConn] at h1
+    split at h1
+    · cases h1
+    · next ne => exact ⟨h1, by simp [ne, h2]⟩
+theorem foldl_closeConn_acquired (l : List Cid) (s : St) : (l.foldl closeConn s).acquired = s.acquired := by
+  induction l generalizing s with
+  | nil => rfl
+  | cons a t ih => simp only [List.foldl_cons]; rw [ih]; rfl
+theorem closeSlots_open (l : List Slot) (s : St) (c : Cid) :
+    connOpen (closeSlots s l) c = true → connOpen s c = true ∧ Slot.conn c ∉ l := by
+  induction l generalizing s with
+  | nil => intro h; exact ⟨h, by simp⟩
+  | cons a t ih =>
+    cases a with
+    | ph u =>
+      intro h; simp only [closeSlots] at h
+      obtain ⟨h1, h2⟩ := ih _ h
+      exact ⟨h1, by simp [h2]⟩
+    | conn d =>
+      intro h; simp only [closeSlots] at h
+      obtain ⟨h1, h2⟩ := ih _ h
+      rw [connOpen_closeConn] at h1
+      split at h1
+      · cases h1
+      · next ne => exact ⟨h1, by simp [h2]; exact fun e => ne e⟩
+theorem cancelWaiters_conns (l : List Tid) (s : St) : (cancelWaiters s l).conns = s.conns := by
+  induction l generalizing s with
+  | nil => rfl
+  | cons a t ih =>
+    simp only [cancelWaiters]; split
+    · split
+      · rw [ih]; rfl
+      · exact ih s
+    · exact ih s
+
+theorem closeAll_no_open {s : St} (h : OInv s) (hc : s.closed = false) (c : Cid) :
+    connOpen (closeAll Fixes.all s) c = false := by
+  cases e : connOpen (closeAll Fixes.all s) c
+  · rfl
+  · exfalso
+    unfold closeAll at e
+    simp only [hc, Bool.false_eq_true, if_false] at e
+    unfold connOpen at e
+    simp only [cancelWaiters_conns] at e
+    have e' : connOpen (closeSlots (List.foldl closeConn { s with closed := true } s.idle)
+        (List.foldl closeConn { s with closed := true } s.idle).acquired) c = true := e
+    obtain ⟨h1, h2⟩ := closeSlots_open _ _ c e'
+    rw [foldl_closeConn_acquired] at h2
+    obtain ⟨h3, h4⟩ := foldl_closeConn_open _ _ c h1
+    have h5 : connOpen s c = true := h3
+    rcases h c h5 with h6 | h6
+    · exact h4 h6
+    · exact h2 h6
+
+theorem oinv_closeAll {s : St} (h : OInv s) (hq : QInv s) :
+    OInv (closeAll Fixes.all s) ∧ QInv (closeAll Fixes.all s) := by
+  cases hc : s.closed
+  · refine ⟨?_, ?_⟩
+    · intro c hcc; rw [closeAll_no_open h hc] at hcc; cases hcc
+    · intro _; exact (closeAll_fields hc).2.2.2.2.1
+  · have : closeAll Fixes.all s = s := by simp [closeAll, hc]
+    rw [this]; exact ⟨h, hq⟩
+
+theorem oinv_step {s : St} (hi : Inv s) (h : OInv s) (hq : QInv s) (l : Label) :
+    OInv (step Fixes.all s l) ∧ QInv (step Fixes.all s l) := by
+  cases l with
+  | spawn t =>
+    simp only [step]; split
+    · split
+      · exact ⟨h.of_eq rfl rfl rfl, hq⟩
+      · exact ⟨h, hq⟩
+    · exact ⟨h, hq⟩
+  | tick =>
+    simp only [step]; split
+    · exact ⟨h, hq⟩
+    · next t rest hr =>
+      have c : SameCore s { s with ready := rest } := sameCore_ready s rest
+      split
+      · exact oinv_resume (hi.core c) (h.of_eq rfl rfl rfl) hq
+      · exact ⟨h.of_eq rfl rfl rfl, hq⟩
+  | createDone t ok =>
+    simp only [step]; split
+    · split
+      · exact ⟨h.of_eq rfl rfl rfl, hq⟩
+      · exact ⟨h, hq⟩
+    · exact ⟨h, hq⟩
+  | cancel t =>
+    simp only [step]; split
+    · exact oinv_cancelTask h hq false
+    · exact ⟨h, hq⟩
+  | timeout t =>
+    simp only [step]; split
+    · exact oinv_cancelTask h hq true
+    · exact ⟨h, hq⟩
+  | release t pool =>
+    simp only [step]; split
+    · next x hx =>
+      split
+      · next c hpc =>
+        split
+        · exact ⟨h.of_eq rfl rfl rfl, hq⟩
+        · obtain ⟨f1, f2, f3, f4, f5⟩ := releaseAcquired_fields (setTask s t { x with pc := .done }) x.key (.conn c)
+          have q1 : QInv (releaseAcquired (setTask s t { x with pc := .done }) x.key (.conn c)) := by
+            intro hc; rw [f3] at hc
+            have := hq hc
+            apply List.eq_nil_iff_forall_not_mem.mpr
+            intro u hu; have := f5 u hu; simp_all [setTask]
+          split
+          · refine ⟨?_, q1⟩
+            intro d hd
+            have hd' : connOpen s d = true := by rw [← connOpen_congr (s := s) (s' := releaseAcquired (setTask s t { x with pc := .done }) x.key (.conn c)) f1]; exact hd
+            show d ∈ (releaseAcquired (setTask s t { x with pc := .done }) x.key (.conn c)).idle ++ [c] ∨ _
+            rw [f2]
+            by_cases e : d = c
+            · subst e; left; simp
+            · rcases h d hd' with h1 | h1
+              · left; exact List.mem_append_left _ h1
+              · right; exact f4 _ h1 (by intro e'; cases e'; exact e rfl)
+          · refine ⟨?_, q1⟩
+            intro d hd
+            rw [connOpen_closeConn] at hd
+            split at hd
+            · cases hd
+            · next e =>
+              have hd' : connOpen s d = true := by rw [← connOpen_congr (s := s) (s' := releaseAcquired (setTask s t { x with pc := .done }) x.key (.conn c)) f1]; exact hd
+              show d ∈ (releaseAcquired (setTask s t { x with pc := .done }) x.key (.conn c)).idle ∨ _
+              rw [f2]
+              rcases h d hd' with h1 | h1
+              · exact Or.inl h1
+              · right; exact f4 _ h1 (by intro e'; cases e'; exact e rfl)
+      all_goals exact ⟨h, hq⟩
+    · exact ⟨h, hq⟩
+  | lose c =>
+    simp only [step]; split
+    · refine ⟨?_, hq⟩
+      intro d hd
+      rw [connOpen_closeConn] at hd
+      split at hd
+      · cases hd
+      · exact h d hd
+    · exact ⟨h, hq⟩
+  | close => exact oinv_closeAll h hq
+  | shuffle p => exact ⟨h.of_eq rfl rfl rfl, hq⟩
+
+theorem oinv_run {s : St} (hi : Inv s) (hw : WaitInv s) (h : OInv s) (hq : QInv s) (ls : List Label) :
+    OInv (run Fixes.all s ls) ∧ QInv (run Fixes.all s ls) := by
+  induction ls generalizing s with
+  | nil => exact ⟨h, hq⟩
+  | cons l ls ih =>
+    have i := inv_step hi hw l
+    have o := oinv_step hi h hq l
+    exact ih i.1 i.2 o.1 o.2
+
+theorem oinv_init (limit lph : Nat) (keys : List Key) : OInv (init limit lph keys) ∧ QInv (init limit lph keys) := by
+  refine ⟨?_, ?_⟩
+  · intro c hc; simp [connOpen, init] at hc
+  · intro hc; simp [init] at hc
+
 end Aio.C07
